@@ -50,7 +50,7 @@ func (cs *parseCase) UnmarshalJSON(b []byte) error {
 }
 
 func init() {
-	for _, n := range []string{"lexeme-sequences", "derived", "soup", "trees", "lexeme-sequences-4"} {
+	for _, n := range []string{"lexeme-sequences", "derived", "soup", "trees", "lexeme-sequences-4", "deep-nesting"} {
 		harness.RegisterReplayer("C08/"+n, func(raw json.RawMessage) string {
 			cs, err := unJSON[parseCase](raw)
 			if err != nil {
